@@ -115,3 +115,25 @@ func VerifC03_util_unmarshal_token_key() {
 		vReach("rejected")
 	}
 }
+
+// the sizes keys actually have (RSA-2048, -3072, -4096, -8192), with arbitrary content
+func VerifC18_spki_real_world_sizes() {
+	vUnwind(40)
+	sizes := []int{256, 384, 512, 1024}
+	sz := sizes[vSplit(vInt("size", 0, 3), 0, 3)]
+	key, n, eb := c18Key(sz, sz)
+	out, err := MarshalTokenKeyPSSOID(key)
+	vAssert(err == nil, "encodes")
+	if err != nil {
+		return
+	}
+	want := c18Expected(c18AlgID, n, eb)
+	vAssert(len(out) == len(want), "length")
+	vAssert(vBytesEq(out, want), "byte-identical-to-the-prescribed-der")
+	dec, err := UnmarshalTokenKey(out)
+	vAssert(err == nil, "decoder-accepts-the-encoding")
+	if err == nil {
+		vAssert(vBytesEq(dec.N.Bytes(), n), "modulus-recovered")
+	}
+	vReach("real-world-size")
+}
